@@ -31,6 +31,7 @@ def main():
             r = sh('git -C %s worktree add --detach %s HEAD' % (REPO, tree))
             if r.returncode != 0: print(sid, 'NO WORKTREE', r.stderr[:200]); continue
         r = sh('git -C %s apply %s' % (tree, os.path.join(d, 'patch.diff')))
+        if r.returncode != 0: r = sh('git -C %s apply --3way %s' % (tree, os.path.join(d, 'patch.diff')))      # context moved by a later repair of /repo
         if r.returncode != 0: print(sid, 'PATCH DOES NOT APPLY', r.stderr[:200]); continue
         try:
             res = {}
